@@ -62,3 +62,24 @@ package pogreb
 //@     invariant lockSt[fieldaddr(it, mu)] == 2 && lockSt[fieldaddr(it.db, mu)] == 1
 //@     decreases int(it.db.index.numBuckets) - int(it.nextBucketIdx)
 //@     modifies it.queue, it.nextBucketIdx, elems(item)
+
+// ---- db.go: Items, Count ------------------------------------------------------------------------------------------
+// a scan starts before the first bucket with an empty queue: together with Next#done-only-at-end and #forward, no bucket
+// that exists when the scan ends was skipped by the starting position
+//@ func (db *DB) Items() (it *ItemIterator) [C11]
+//@   ensures [C11] starts-at-first-bucket: it != nil && fresh(it) && it.db == db && it.nextBucketIdx == 0 && len(it.queue) == 0
+//@   modifies nothing
+
+// Count reports the index's key counter, the one index.put/index.delete move by exactly one per new / removed key
+// (count-new-key, count-overwrite, count-removed, count-missing), and changes nothing
+//@ func (idx *index) count() (n uint32) [C01]
+//@   requires idx: idx != nil
+//@   ensures [C01] is-counter: n == idx.numKeys
+//@   modifies nothing
+
+//@ func (db *DB) Count() (n uint32) [C01]
+//@   requires db: db != nil && db.index != nil
+//@   requires unlocked: lockSt[fieldaddr(db, mu)] == 0
+//@   ensures [C01] is-counter: n == db.index.numKeys
+//@   ensures unlocked: lockSt[fieldaddr(db, mu)] == 0
+//@   modifies lockSt
